@@ -96,7 +96,8 @@ def gen_case(rng, eol):
             doc.add(["Then:", ""])
         text = "\n".join(ss) if rng.random() < 0.7 else "\n\n".join(ss)
         extra = rng.choice([0, 0, 0, 2, 4, 1])      # recipe text indented more than the block requires
-        lines, firstl, strip = gen_md.recipe_block_lines(rng, text, style, container, extra)
+        lead = rng.choice([0, 0, 0, 1, 2]) if style != "indented" else 0      # blank lines right after the opening fence
+        lines, firstl, strip = gen_md.recipe_block_lines(rng, text, style, container, extra, lead)
         doc.blocks.append(dict(first_line=len(doc.lines) + firstl, prefix=strip, text=text, kind=style, group=g, container=container))
         doc.add(lines + [""])
         doc.blocks[-1]["end"] = len(doc.lines)
@@ -109,7 +110,10 @@ def gen_case(rng, eol):
             fault_line = fault_block["first_line"] + off_line + 1    # 1-based document line
             fault_text = stmts[si]
         first = False
-    return dict(document=doc.text(eol), kind=kind, line=fault_line, column=col + fault_extra, snippet=" " * fault_extra + fault_text, eol=eol, container=fault_block["container"], style=fault_block["kind"])
+    first_line = next((l for l in doc.lines), "")
+    plain_start = bool(first_line.strip()) and not first_line.startswith((" ", "\t", ">", "-", "`", "~", "*", "<"))
+    bom = "\ufeff" if (rng.random() < 0.1 and plain_start) else ""        # a byte order mark at the start of the file is one more character of line 1
+    return dict(document=bom + doc.text(eol), kind=kind, line=fault_line, column=col + fault_extra, snippet=" " * fault_extra + fault_text, eol=eol, container=fault_block["container"], style=fault_block["kind"])
 
 
 def run_case(c):
